@@ -188,8 +188,8 @@ class EventLog:
 # parent ──fork──▶ worker w (pristine: has imported the repo, never parses)
 #                     └─fork──▶ one child per task (runs it, reports, _exit)
 #
-# Task i goes to worker i % jobs; every task is a pure function of its own description, so results
-# do not depend on the number of jobs.  A child that exceeds the wall-clock safety net is killed
+# Tasks are handed to whichever worker is free; every task is a pure function of its own description,
+# so results do not depend on the number of jobs or on which worker ran what.  A child that exceeds the wall-clock safety net is killed
 # and reported as ("harness-timeout", ...) — never as a pass and never as a violation.
 
 
@@ -268,8 +268,14 @@ def run_in_child(fn, task, wall_timeout: float):
     return res
 
 
-def _worker_main(fn, tasks, indices, out_fd, wall_timeout, fork_per_task):
-    for i in indices:
+def _worker_main(fn, tasks, cmd_fd, out_fd, wall_timeout, fork_per_task):
+    while True:
+        head = _read_exact(cmd_fd, 8)
+        if head is None:
+            return
+        (i,) = struct.unpack("<q", head)
+        if i < 0:
+            return
         if fork_per_task:
             res = run_in_child(fn, tasks[i], wall_timeout)
         else:
@@ -281,51 +287,71 @@ def _worker_main(fn, tasks, indices, out_fd, wall_timeout, fork_per_task):
 
 
 def run_tasks(fn, tasks: list, *, jobs: int | None = None, wall_timeout: float = 120.0, fork_per_task: bool = True):
-    """Yield (index, (status, payload)) for every task, in completion order."""
+    """Yield (index, (status, payload)) for every task, in completion order.  Tasks are handed to whichever
+    worker is free (each task is a pure function of its own description, so which worker runs it and in which
+    order cannot change its result)."""
     jobs = max(1, min(jobs or JOBS, len(tasks) or 1))
-    workers: dict[int, int] = {}  # fd -> pid
+    workers: dict[int, tuple[int, int]] = {}  # result fd -> (pid, command fd)
     sys.stdout.flush()
     sys.stderr.flush()
-    for w in range(jobs):
-        indices = list(range(w, len(tasks), jobs))
+    for _w in range(jobs):
         r, wfd = os.pipe()
+        cr, cw = os.pipe()
         pid = os.fork()
         if pid == 0:
             code = 0
             try:
                 os.close(r)
-                for fd in list(workers):
+                os.close(cw)
+                for fd, (_, cfd) in list(workers.items()):
                     os.close(fd)
-                _worker_main(fn, tasks, indices, wfd, wall_timeout, fork_per_task)
+                    os.close(cfd)
+                _worker_main(fn, tasks, cr, wfd, wall_timeout, fork_per_task)
             except BaseException:  # noqa: BLE001
                 traceback.print_exc()
                 code = 3
             finally:
                 os._exit(code)
         os.close(wfd)
-        workers[r] = pid
+        os.close(cr)
+        workers[r] = (pid, cw)
+    next_i = 0
     seen = 0
+
+    def feed(cfd):
+        nonlocal next_i
+        if next_i < len(tasks):
+            os.write(cfd, struct.pack("<q", next_i))
+            next_i += 1
+        else:
+            os.write(cfd, struct.pack("<q", -1))
+
     try:
+        for _fd, (_pid, cfd) in workers.items():
+            feed(cfd)
         while workers:
             ready, _, _ = select.select(list(workers), [], [], 5.0)
             for fd in ready:
                 msg = _read_msg(fd)
                 if msg is None:
-                    pid = workers.pop(fd)
+                    pid, cfd = workers.pop(fd)
                     os.close(fd)
+                    os.close(cfd)
                     _, status = os.waitpid(pid, 0)
                     if status != 0:
                         raise HarnessError(f"worker {pid} exited with status {status}")
                     continue
                 seen += 1
+                feed(workers[fd][1])
                 yield msg
     finally:
-        for fd, pid in workers.items():
+        for fd, (pid, cfd) in workers.items():
             try:
                 os.kill(pid, signal.SIGKILL)
             except ProcessLookupError:
                 pass
             os.close(fd)
+            os.close(cfd)
             try:
                 os.waitpid(pid, 0)
             except ChildProcessError:
